@@ -116,28 +116,121 @@ func checkC20(c *Ctx) {
 		for _, m := range p.Methods(recvT) {
 			visit(m)
 		}
-		nOut := 0
+		nOut, nOther := 0, 0
 		for _, f := range order {
 			if f == obs || (f.Parent() != nil && f.Parent() == obs) {
 				continue
 			}
-			for _, ci := range Calls(f) {
+			// emits of this function: a callback invoked with a table
+			emitArg := func(in ssa.Instruction) ssa.Value {
+				ci, ok := in.(ssa.CallInstruction)
+				if !ok {
+					return nil
+				}
 				cm := ci.Common()
 				if cm.IsInvoke() || cm.StaticCallee() != nil {
-					continue
+					return nil
 				}
 				if _, isB := cm.Value.(*ssa.Builtin); isB {
-					continue
+					return nil
 				}
 				for _, a := range cm.Args {
 					if typeShort(a.Type()) == "*pokertable.Table" || typeShort(a.Type()) == "*Table" {
-						nOut++
-						c.Bad("R1", "table-to-client-outside-the-filter:"+FuncName(f), p.InstrPos(ci), FuncName(f)+" hands "+p.Sym(a).Strip().String()+" to a callback: only the observer's UpdateTableState, which filters first, may show a table to the observer's client")
+						return a
+					}
+				}
+				return nil
+			}
+			filterRecv := func(in ssa.Instruction) ssa.Value {
+				ci, ok := in.(ssa.CallInstruction)
+				if !ok || calleeName(ci.Common()) != "pokerface.GameState.AsObserver" {
+					return nil
+				}
+				return ci.Common().Args[0]
+			}
+			has := false
+			for _, b := range f.Blocks {
+				for _, in := range b.Instrs {
+					if emitArg(in) != nil {
+						has = true
 					}
 				}
 			}
+			if !has {
+				continue
+			}
+			nOther++
+			// the same obligation as in the filtering method, path by path: system mode on, or the very table that
+			// is handed over has no hand state, or its hand state went through AsObserver before
+			bad := 0
+			var badPath []int
+			wk := &Walker{P: p, Fn: f, IsEvent: func(in ssa.Instruction) bool { return emitArg(in) != nil || filterRecv(in) != nil }, OnExit: func(in ssa.Instruction, st *WState) {
+				var filteredTables []string
+				for _, e := range st.Events {
+					if r := filterRecv(e); r != nil {
+						rs := p.Sym(st.Resolve(r)).Strip()
+						if rs.IsField("TableState", "GameState") && len(rs.Args) > 0 {
+							if stt := rs.Args[0].Strip(); stt.Kind == "field" && stt.Name == "State" && len(stt.Args) > 0 {
+								filteredTables = append(filteredTables, stt.Args[0].Strip().String())
+							}
+						}
+						continue
+					}
+					a := emitArg(e)
+					if a == nil {
+						continue
+					}
+					tv := st.Resolve(a)
+					ts := p.Sym(tv).Strip()
+					ok := false
+					if cst, isC := tv.(*ssa.Const); isC && cst.IsNil() {
+						ok = true
+					}
+					if st.nilF[tv] > 0 {
+						ok = true
+					}
+					for _, ft := range filteredTables {
+						if ft == ts.String() {
+							ok = true
+						}
+					}
+					for v, b := range st.boolF {
+						if p.Sym(v).Strip().IsField("observerRunner", "systemMode") && b {
+							ok = true
+						}
+					}
+					for v, nf := range st.nilF {
+						vs := p.Sym(v).Strip()
+						if nf > 0 && vs.String() == ts.String() {
+							ok = true // the table itself is nil on this path (the same place read twice)
+						}
+						if nf > 0 && vs.Kind == "field" && vs.Name == "State" && len(vs.Args) > 0 && vs.Args[0].Strip().String() == ts.String() {
+							ok = true // no state at all, hence no hand state
+						}
+						if nf > 0 && vs.IsField("TableState", "GameState") && len(vs.Args) > 0 {
+							if stt := vs.Args[0].Strip(); stt.Kind == "field" && stt.Name == "State" && len(stt.Args) > 0 && stt.Args[0].Strip().String() == ts.String() {
+								ok = true
+							}
+						}
+					}
+					if !ok {
+						bad++
+						badPath = append([]int{}, st.Trail...)
+					}
+				}
+			}}
+			wk.Run()
+			switch {
+			case wk.Aborted:
+				c.Undecided("R1", "table-to-client-outside-the-filter:"+FuncName(f), p.Pos(f.Pos()), "path enumeration aborted")
+			case bad > 0:
+				nOut++
+				c.Bad("R1", "table-to-client-outside-the-filter:"+FuncName(f), p.Pos(f.Pos()), fmt.Sprintf("%s hands a table to a callback on %d path(s) (e.g. %s) with system mode off although that table may carry a hand state that did not pass through AsObserver — a snapshot kept from earlier is not filtered for the mode the runner is in now", FuncName(f), bad, p.TrailString(f, badPath)))
+			default:
+				c.Ok("R1", "table-to-client-outside-the-filter:"+FuncName(f), p.Pos(f.Pos()), "every table handed to a callback here is filtered first, or system mode is on, or it has no hand state")
+			}
 		}
-		if nOut == 0 {
+		if nOut == 0 && nOther == 0 {
 			c.Ok("R1", "table-to-client-only-through-the-filter", p.Pos(obs.Pos()), fmt.Sprintf("%d function(s) of the observer runner: no other place invokes a callback with a table", len(order)))
 		}
 	}
